@@ -73,8 +73,17 @@ func (g *heapGen) alphaFor(al int) []byte {
 	case "C06":
 		return ntResidues
 	case "C14", "C15":
+		// one time in three a tiny alphabet with characters that are not letters, so that a column repeats what
+		// its neighbours hold (counts carried over from one site to the next then change an answer)
+		small := g.rng.Intn(3) == 0
 		if al == 0 {
+			if small {
+				return []byte("AQ*?")
+			}
 			return []byte("AQXx-*ae")
+		}
+		if small {
+			return []byte("AC?*-")
 		}
 		return []byte("ACGNn-.aR")
 	case "C10":
